@@ -731,6 +731,17 @@ func runSched(c caseIn) *caseOut {
 		if tickPos >= 0 && tickPos < fa {
 			add("dead-code-activated", "caller %d activated the code although its first action came after the activation period had ended", a)
 		}
+		// connCode.Activate re-checks the activation period right after the last index append (op 7) and before the
+		// code record is written: if the period had ended by then, the activation must fail and roll back
+		if tickPos >= 0 {
+			ta := out.Threads[a]
+			for k, op := range ta.Trace {
+				if op == opAppIdxT && k < len(ta.Pos) && tickPos < ta.Pos[k] {
+					add("expired-code-activated", "caller %d: the activation period ended at schedule entry %d, before the caller finished creating its mapping (last index append at entry %d, connCode.Activate after it), yet the activation succeeded: an expired code created a mapping",
+						a, tickPos, ta.Pos[k])
+				}
+			}
+		}
 		for r, t := range c.Threads {
 			if t.Kind == "rev" && out.Threads[r].Res == 0 && out.Threads[r].Done >= 0 && out.Threads[r].Done < fa {
 				add("dead-code-activated", "caller %d activated the code although revocation by caller %d had completed before its first action", a, r)
